@@ -177,7 +177,7 @@ fn exhaustive(ctx: &Ctx, report: &mut Report) {
 pub fn run(ctx: &Ctx) -> (Level, Report) {
 	let mut report = Report::default();
 	for (name, check) in tape_checks(ctx) {
-		let out = ctx.random(name, 120_000, 20, 1024, &*check);
+		let out = ctx.random(name, 600_000, 10, 1024, &*check);
 		report.absorb(name, out);
 	}
 	exhaustive(ctx, &mut report);
